@@ -166,6 +166,10 @@ theorem recordInfo_rct (ep ord : Nat) (st : ScanSt) : (recordInfo ep ord st).row
   unfold recordInfo; simp only []
   split <;> (split <;> rfl)
 
+theorem recordInfo_endMark (ep ord : Nat) (st : ScanSt) : (recordInfo ep ord st).endMark = st.endMark := by
+  unfold recordInfo; simp only []
+  split <;> (split <;> rfl)
+
 theorem recordInfo_startTime (ep ord : Nat) (st : ScanSt) :
     (ord ≠ ep → (recordInfo ep ord st).startTime = st.startTime) ∧
     ((recordInfo ep ord st).startTime = st.startTime ∨ (recordInfo ep ord st).startTime = st.now) := by
@@ -275,8 +279,6 @@ structure SimHyp (m : LinMod) (ep chain : Nat) (ctl0 : List Nat) (e : PlayEnv) (
   ep_le : ep ≤ o1
   /-- the entry point of a secondary sequence is the lowest free order -/
   low : ep ≠ 0 → ∀ o, o < ep → ctl0.getD o 0xff ≠ 0xff
-  /-- order 0, if playable, does not carry the chain number of a secondary sequence -/
-  own0 : ep ≠ 0 → isPlay m 0 → ctl0.getD 0 0xff ≠ chain
   chainLt : chain < 255
   em : e.m = m
   eseq : e.si.seq = chain
@@ -316,6 +318,8 @@ structure ScanInvW (m : LinMod) (ep chain : Nat) (ctl0 : List Nat) (info0 : List
   visOrd : ∀ rec ∈ st.trace, isPlay m rec.ord ∧ (ep ≠ 0 → ctl0.getD rec.ord 0xff = 0xff)
   /-- `row_count_total` is 0 at the top of the order loop: the runaway guard never fires -/
   rct : st.rowCountTotal = 0
+  /-- no end marker pending (`end_marker_ord = -1`) at the top of the order loop after a pattern -/
+  endMark : st.endMark = none
 
 theorem recordInfo_info (ep ord : Nat) (st : ScanSt) :
     (recordInfo ep ord st).info = st.info.set ord
@@ -464,7 +468,9 @@ theorem inv_pattern (m : LinMod) (ep chain : Nat) (ctl0 : List Nat) (info0 : Lis
     rw [rowStart_of_rowCount0 st3 (by rw [f5]; exact hinv.rowCount)]
     unfold ScanSt.now; rw [f2, f3, f4]
   have hfreshAll : ∀ r, cntAt st.cnt o r = 0 := hinv.pre o hfresh0
-  refine ⟨⟨?_, ?_, ?_, ?_, ?_, ?_, ?_, ?_, ?_, ?_, ?_, ?_, ?_, ?_, ?_, ?_, ?_, ?_, ?_, ?_, rfl⟩, ?_, ?_, ?_, ?_⟩
+  have hem' : st'.endMark = none := by
+    rw [hd.endMark, hst3, recordInfo_endMark]; exact hinv.endMark
+  refine ⟨⟨?_, ?_, ?_, ?_, ?_, ?_, ?_, ?_, ?_, ?_, ?_, ?_, ?_, ?_, ?_, ?_, ?_, ?_, ?_, ?_, rfl, hem'⟩, ?_, ?_, ?_, ?_⟩
   · show st'.cnt.length = m.len
     rw [hd.cntLen, h3cnt]; exact hinv.cntLen
   · intro o' ho'
@@ -893,52 +899,42 @@ theorem sim_main (m : LinMod) (ep chain : Nat) (ctl0 : List Nat) (info0 : List O
     intro fuel hf nord st F sP hinv hp hfin
     have hne : scanOrders m ep chain fuel nord st ≠ .noFuel := by rw [hfin]; intro h; cases h
     obtain ⟨o, fuel', k, c', ho, hlt, hk, heq, htarget⟩ :=
-      scan_head m ep chain o1 H.wf H.ep_lt H.start H.o1play H.ep_le fuel nord st hinv.osv hne
+      scan_head m ep chain o1 H.wf H.ep_lt H.start H.o1play H.ep_le fuel nord st hinv.osv hinv.endMark hne
     rw [heq] at hfin
     obtain ⟨mono1, mono2, mono3⟩ := scanOrders_mono m ep chain fuel nord st stF oF rS (by rw [heq]; exact hfin)
     -- the player's restart decision
     have hUU : (isPlay m m.rst ∧ st.ctl.getD m.rst 0xff = chain) → (isPlay m m.rst ∧ e.ctl.getD m.rst 0xff = e.si.seq) := by
       intro h
       exact ⟨h.1, by rw [H.eseq]; exact (H.ectl h.1).mpr (mono2 _ h.2)⟩
-    have hUlow : ∀ x, isEndMark m x → x < e.si.ep → ¬ (isPlay m m.rst ∧ e.ctl.getD m.rst 0xff = e.si.seq) := by
-      intro x hx hlt hU
-      rw [H.eep] at hlt
-      rw [H.eseq] at hU
-      have he : ep ≠ 0 := by omega
-      have hr0 := H.wf.mkRst x hx
-      have h0 : (0 : Nat) < ep := by omega
-      have h1 : stF.ctl.getD m.rst 0xff = chain := (H.ectl hU.1).mp hU.2
-      rw [hr0] at h1 hU
-      have h2 := hinv.low he 0 h0
-      have h3 := H.low he 0 h0
-      have h4 := mono3 he 0 (by rw [h2]; exact h3)
-      rw [h4, h2] at h1
-      exact H.own0 he hU.1 h1
-    have htarget' : Target m o1 (isPlay m m.rst ∧ e.ctl.getD m.rst 0xff = e.si.seq) nord o := by
+    have htarget' : Target m e.si.ep o1 (isPlay m m.rst ∧ e.ctl.getD m.rst 0xff = e.si.seq) nord o := by
+      rw [H.eep]
       obtain ⟨x, h1, h2, hc⟩ := htarget
-      rcases hc with ⟨h3, h4⟩ | ⟨h3, ⟨h4, h5⟩ | ⟨h4, h5⟩⟩
+      rcases hc with ⟨h3, h4⟩ | ⟨h3, ⟨h4, hnl, h5⟩ | ⟨h4, h5⟩⟩
       · exact ⟨x, h1, h2, Or.inl ⟨h3, h4⟩⟩
-      · exact ⟨x, h1, h2, Or.inr ⟨h3, Or.inl ⟨hUU h4, h5⟩⟩⟩
+      · exact ⟨x, h1, h2, Or.inr ⟨h3, Or.inl ⟨hUU h4, hnl, h5⟩⟩⟩
       · refine ⟨x, h1, h2, Or.inr ⟨h3, Or.inr ⟨?_, h5⟩⟩⟩
-        intro hU'
-        rw [H.eseq] at hU'
-        have hsF : stF.ctl.getD m.rst 0xff = chain := (H.ectl hU'.1).mp hU'.2
-        subst h5
-        obtain ⟨_, _, hst⟩ := procValid_done m ep chain fuel' o _ stF oF rS hfin (Or.inr hinv.first)
-        have hc'rst : c'.getD m.rst 0xff = st.ctl.getD m.rst 0xff := hk.play _ hU'.1
-        rcases hst with hst | hst
-        · rw [hst] at hsF
-          exact h4 ⟨hU'.1, by rw [← hc'rst]; exact hsF⟩
-        · rw [hst] at hsF
-          by_cases hro : o = m.rst
-          · exact h4 ⟨hU'.1, by rw [← hro]; exact hinv.ctlO1⟩
-          · have : (c'.set o chain).getD m.rst 0xff = chain := hsF
-            rw [getD_set_ne _ _ _ _ _ hro] at this
-            exact h4 ⟨hU'.1, by rw [← hc'rst]; exact this⟩
+        rcases h4 with h4 | h4
+        · left
+          intro hU'
+          rw [H.eseq] at hU'
+          have hsF : stF.ctl.getD m.rst 0xff = chain := (H.ectl hU'.1).mp hU'.2
+          subst h5
+          obtain ⟨_, _, hst⟩ := procValid_done m ep chain fuel' o _ stF oF rS hfin (Or.inr hinv.first)
+          have hc'rst : c'.getD m.rst 0xff = st.ctl.getD m.rst 0xff := hk.play _ hU'.1
+          rcases hst with hst | hst
+          · rw [hst] at hsF
+            exact h4 ⟨hU'.1, by rw [← hc'rst]; exact hsF⟩
+          · rw [hst] at hsF
+            by_cases hro : o = m.rst
+            · exact h4 ⟨hU'.1, by rw [← hro]; exact hinv.ctlO1⟩
+            · have : (c'.set o chain).getD m.rst 0xff = chain := hsF
+              rw [getD_set_ne _ _ _ _ _ hro] at this
+              exact h4 ⟨hU'.1, by rw [← hc'rst]; exact this⟩
+        · exact Or.inr h4
     have hno : nextOrder e.m e.si e.ctl (orderFuel e.m) nord = some o := by
       rw [H.em]
       exact play_target m e.si e.ctl o1 _ H.wf (by rw [H.eep]; exact H.ep_lt) (by rw [H.eep]; exact H.start)
-        H.o1play (by rw [H.eep]; exact H.ep_le) Iff.rfl hUlow nord o htarget'
+        H.o1play (by rw [H.eep]; exact H.ep_le) Iff.rfl nord o htarget'
     -- the scan at order `o`
     by_cases hdone : (ep ≠ 0 ∧ c'.getD o 0xff ≠ 0xff) ∨ cntAt st.cnt o 0 ≠ 0
     · obtain ⟨hoF, hrF, hst⟩ := procValid_done m ep chain fuel' o _ stF oF rS hfin hdone
@@ -996,7 +992,7 @@ theorem sim_scanOrders (m : LinMod) (ep chain : Nat) (ctl0 : List Nat) (info0 : 
   have h0ctl : st0.ctl = ctl0 := by rw [hst0]; rfl
   have h0now : st0.now = 0 := by rw [hst0]; simp [scanInit, ScanSt.now]
   have hinv0 : ScanInvW m ep chain ctl0 info0 o1 st0 := by
-    refine ⟨?_, ?_, ?_, ?_, ?_, ?_, ?_, ?_, ?_, ?_, ?_, ?_, ?_, ?_, ?_, ?_, ?_, ?_, ?_, ?_, by rw [hst0]; rfl⟩
+    refine ⟨?_, ?_, ?_, ?_, ?_, ?_, ?_, ?_, ?_, ?_, ?_, ?_, ?_, ?_, ?_, ?_, ?_, ?_, ?_, ?_, by rw [hst0]; rfl, by rw [hst0]; rfl⟩
     · rw [h0cnt]; exact (initCnt_inv m).1
     · intro o ho; rw [h0cnt]; exact initCnt_rowLen m o ho (H.wf.rows _ (rowsOf_mem m o ho))
     · intro o _ r; rw [h0cnt]; exact cntAt_initCnt m o r
@@ -1245,7 +1241,6 @@ structure SeqHyp (m : LinMod) (ep chain : Nat) (ctl0 : List Nat) (info0 : List O
   o1play : isPlay m o1
   ep_le : ep ≤ o1
   low : ep ≠ 0 → ∀ o, o < ep → ctl0.getD o 0xff ≠ 0xff
-  own0 : ep ≠ 0 → isPlay m 0 → ctl0.getD 0 0xff ≠ chain
   chainLt : chain < 255
   ctlLen : m.len ≤ ctl0.length
   acc : 0 ≤ (scanModule m ep chain ctl0 info0).ret
@@ -1286,7 +1281,7 @@ theorem sim_sequence (m : LinMod) (ep chain : Nat) (ctl0 : List Nat) (info0 : Li
   have hrE : rS = 0 → (scanModule m ep chain ctl0 info0).endRow = 0 := by
     intro h; rw [r2, h]; split <;> rfl
   have HS : SimHyp m ep chain ctl0 e o1 stF oF (scanModule m ep chain ctl0 info0).endRow := by
-    refine ⟨H.wf, H.ep_lt, H.start, H.o1play, H.ep_le, H.low, H.own0, H.chainLt, H.em, ?_, ?_, ?_, ?_, ?_, ?_⟩
+    refine ⟨H.wf, H.ep_lt, H.start, H.o1play, H.ep_le, H.low, H.chainLt, H.em, ?_, ?_, ?_, ?_, ?_, ?_⟩
     · rw [H.esi]
     · rw [H.esi]
     · rw [H.esi]; exact r1
